@@ -39,6 +39,8 @@ fn main() {
         ("envelope", "record") => s_envelope::record(seed, &tier, &out),
         ("config", "replay") => s_config::replay(&inp, arg(&args, "--workdir").unwrap_or("/tmp")),
         ("config", "record") => s_config::record(seed, &tier, &out, arg(&args, "--workdir").unwrap_or("/tmp")),
+        ("stats", "replay") => s_stats::replay(&inp, &out),
+        ("stats", "record") => s_stats::record(seed, &tier, &out),
         ("selfcheck", _) => println!("{{\"rec\":\"ok\"}}"),
         (s, m) => {
             eprintln!("unknown suite/mode {} {}", s, m);
